@@ -79,6 +79,13 @@ impl ZincDoc {
     }
 }
 
+/// `\uXXXX` spellings around the edges of the escape decoder: surrogate pairs, lone and
+/// mismatched surrogates, NUL, non-characters, upper/lower case hex
+pub const UNICODE_ESCAPES: &[&str] = &[
+    "\\ud83d\\ude00", "\\uD834\\uDD1E", "\\ud83d", "\\ude00", "\\ud83d\\u0041", "\\ud83dx", "\\udbff\\uffff", "\\ud800\\udc00", "\\udbff\\udfff", "\\ud800\\ud800", "\\ude00\\ud83d",
+    "\\u0000", "\\uffff", "\\uFFFE", "\\ud7ff", "\\ue000", "\\u0022", "\\u005c", "\\u0024", "\\u000a", "\\u2028", "\\u00E9", "\\u00e9\\u0301",
+];
+
 pub const UNITS: &[&str] = &[
     "kW", "%", "$", "°F", "°C", "m/s", "ft²", "kWh", "s", "min", "h", "V", "A", "Hz", "Pa", "m³/s", "Δ°C", "_custom",
 ];
@@ -212,7 +219,8 @@ impl<'r> Emitter<'r> {
         let mut s = String::new();
         for _ in 0..n {
             if self.rng.chance(self.cfg.p_escape, 1000) {
-                match self.rng.below(12) {
+                match self.rng.below(14) {
+                    12 | 13 => s.push_str(self.rng.pick_str(UNICODE_ESCAPES)),
                     0 => s.push_str("\\n"),
                     1 => s.push_str("\\t"),
                     2 => s.push_str("\\\\"),
@@ -248,7 +256,7 @@ impl<'r> Emitter<'r> {
         let mut s = String::from("`");
         for _ in 0..n {
             if self.cfg.exotic && self.rng.chance(self.cfg.p_escape, 1000) {
-                s.push_str(self.rng.pick_str(&["\\:", "\\/", "\\?", "\\#", "\\\\", "\\[", "\\]", "\\@", "\\`", "\\&", "\\=", "\\;", "\\u00e9"]));
+                s.push_str(self.rng.pick_str(&["\\:", "\\/", "\\?", "\\#", "\\\\", "\\[", "\\]", "\\@", "\\`", "\\&", "\\=", "\\;", "\\u00e9", "\\ud83d\\ude00", "\\ud83d\\u0041", "\\ud83d", "\\udbff\\uffff", "\\u0000", "\\u0060"]));
             } else if self.cfg.exotic && self.rng.chance(self.cfg.p_nonascii, 1000) {
                 s.push_str(self.rng.pick_str(NONASCII));
             } else {
@@ -293,10 +301,16 @@ impl<'r> Emitter<'r> {
 
     pub fn time_lit(&mut self) -> String {
         let mut s = format!("{:02}:{:02}:{:02}", self.rng.range(0, 23), self.rng.range(0, 59), self.rng.range(0, 59));
-        if self.rng.chance(1, 3) {
+        if self.rng.chance(1, 2) {
             s.push('.');
-            let n = *self.rng.pick(&[1usize, 3, 6, 9]);
-            s.push_str(&self.digits(n));
+            let n = self.rng.range(1, 9);
+            // leading and trailing zeros are where fraction printers and parsers go wrong
+            let zeros = if self.rng.chance(1, 3) { self.rng.range(1, n) } else { 0 };
+            for _ in 0..zeros.min(n - 1) {
+                s.push('0');
+            }
+            let rest = n - zeros.min(n - 1);
+            s.push_str(&self.digits(rest));
         }
         s
     }
